@@ -6,7 +6,11 @@
     already decoded wire value instead of to bytes.
 
     Part 2 (the SPECIFICATION): [resolve], the Avro resolution rules the property
-    C08 lists, as one structural function on a value decoded under the writer schema.
+    C08 lists, as one function on a value decoded under the writer schema.  It is
+    structural in the value, so it needs no fuel.
+
+    Part 3: [inline], [agree] - the computable zone in which code and specification
+    provably coincide (theorem C08_factor_zone_partial).
 
     Executable definitions only. *)
 From Coq Require Import String.
